@@ -268,6 +268,19 @@ func exhaustiveC13(thorough bool, emit func(C13Case) bool) {
 			return
 		}
 	}
+	// Every byte value directly after every base at every position of an 8-byte word inside a longer
+	// string (word-at-a-time validation must not let a neighbour's bits decide).
+	for _, base := range []byte("aAcCgGtT") {
+		for x := 0; x < 256; x++ {
+			for pos := 1; pos < 8; pos++ {
+				w := bytes.Repeat([]byte("a"), 19)
+				w[8+pos-1], w[8+pos] = base, byte(x)
+				if !emit(C13Case{Kind: "dna", Data: w, Spare: pos % 4}) {
+					return
+				}
+			}
+		}
+	}
 	// Every two-byte string (includes every valid two-byte UTF-8 sequence) for the accept/panic boundary.
 	for a := 0; a < 256; a++ {
 		for b := 0; b < 256; b++ {
